@@ -5,7 +5,7 @@ import NGF.Model.Proto
 Driver entry for C19.  Strings travel hex-encoded (UTF-8 bytes; `_` = empty string, `-` = empty list).
 
   model lines
-    S filters=<F>                         -> dirs=<hexlist> counts=<natlist>
+    S filters=<F>                         -> dirs=<hexlist> counts=<natlist> sdirs=.. scounts=..  (s* = PRE-FIX split variant)
     P text=<hex>                          -> dirs=<hexlist>            (parseSnippetValueIntoDirectives only)
     R gc=<0|1> igc=<n> gw=<0|1> igw=<n> routes=<h|g|o,…> l4=<n> sec=<n> svc=<n> ups=<err:n,…> btp=<n>
       pols=<c|o|u|x:bits,…> np=<0|1> sf=<n> -> gc=.. gw=.. http=.. grpc=.. tls=.. sec=.. svc=.. ep=.. btp=..
@@ -13,6 +13,7 @@ Driver entry for C19.  Strings travel hex-encoded (UTF-8 bytes; `_` = empty stri
     G flags=<f,…>                         -> names=<hexlist> values=<hexlist>
         f = hex(name):b:<0|1> | hex(name):o:hex(cur):hex(def):hex(type)
     L text=<hex>                          -> names=<hexlist>           (reference lexer, for cross-checks)
+    T filters=<F>                         -> tidy=<0|1>                (are all snippets `isTidy`?)
   F = `~` | filter|filter|…      filter = nil | empty | hex(ctx):hex(text),…
 
   judge lines (the PROPERTY evaluated on what the real code returned)
@@ -153,6 +154,8 @@ def showCounts (c : Counts) : String :=
 
 /-! ### model mode -/
 
+def allSnippets (fs : List Filter) : List Snippet := fs.flatMap fun f => f.getD []
+
 def modelLine (line : String) : String :=
   let fs := line.splitOn " "
   match fs.head? with
@@ -160,7 +163,8 @@ def modelLine (line : String) : String :=
     match field fs "filters" >>= parseFilters with
     | some f =>
       let (d, c) := collectDirectives f
-      s!"dirs={showHexList d} counts={showNatList c}"
+      let (sd, sc) := collectDirectivesSplit f
+      s!"dirs={showHexList d} counts={showNatList c} sdirs={showHexList sd} scounts={showNatList sc}"
     | none => "bad-op"
   | some "P" =>
     match field fs "text" >>= unhex with
@@ -169,6 +173,10 @@ def modelLine (line : String) : String :=
   | some "L" =>
     match field fs "text" >>= unhex with
     | some t => s!"names={showHexList (directiveNames t)}"
+    | none => "bad-op"
+  | some "T" =>
+    match field fs "filters" >>= parseFilters with
+    | some f => if (allSnippets f).all (isTidy ·.text) then "tidy=1" else "tidy=0"
     | none => "bad-op"
   | some "R" =>
     match parseSummary fs with
@@ -259,18 +267,23 @@ def labelAt (s : Str) (anns : List Ann) (d : Str) (i : Nat) : Option String :=
         | [] => some "name-overrun"
       else some "name-fragment"
 
-/-- shape of an unexpected reported directive `d` for context name `c` -/
+/-- does the occurrence of `d` at offset `i` end where a word ends (whitespace, `;`, `{`, `}`, end of text)? -/
+def endsAtBoundary (s d : Str) (i : Nat) : Bool :=
+  match s.drop (i + d.length) with
+  | [] => true
+  | c :: _ => isGoSpace c || c == ';' || c == '{' || c == '}'
+
+/-- shape of an unexpected reported directive `d` for context name `c`: the lexical provenance of its best
+occurrence (preferring occurrences that start a `;`-chunk and end at a word boundary, then text order) -/
 def classify (snips : List Snippet) (c d : Str) : String :=
   let cands := snips.filter (specCtx ·.ctx == c) |>.flatMap fun sn =>
     let anns := annotate 0 0 0 (lex sn.text)
     (occurrences d sn.text).filterMap fun i =>
-      (labelAt sn.text anns d i).map fun l => (chunkStart sn.text i, l)
-  match cands.find? (·.1) with
+      (labelAt sn.text anns d i).map fun l =>
+        ((if chunkStart sn.text i then 2 else 0) + (if endsAtBoundary sn.text d i then 1 else 0), l)
+  match [3, 2, 1, 0].findSome? fun sc => cands.find? (·.1 == sc) with
   | some (_, l) => l
-  | none =>
-    match cands with
-    | (_, l) :: _ => l
-    | [] => if d.isEmpty then "empty-directive" else "not-in-snippet"
+  | none => if d.isEmpty then "empty-directive" else "not-in-snippet"
 
 /-- shape of a depth-0 directive that the report lacks although nothing unexpected was reported -/
 def classifyMissing (snips : List Snippet) (c d : Str) : String :=
@@ -285,8 +298,6 @@ def classifyMissing (snips : List Snippet) (c d : Str) : String :=
       | .rb :: ts => go true (depth - 1) true ts
     go false 0 true (lex sn.text)
   if afterBlock then "directive-after-block" else "other"
-
-def allSnippets (fs : List Filter) : List Snippet := fs.flatMap fun f => f.getD []
 
 def expectedCount (snips : List Snippet) (c d : Str) : Nat :=
   (snips.filter (specCtx ·.ctx == c)).foldl (fun n sn => n + (directiveNames sn.text).count d) 0
